@@ -291,8 +291,16 @@ pub proof fn lemma_float_to_int(to: NumberType, v: int)
         // extending a 64-bit intermediate to 128 bits
         to.ty.bits_ == 128 && to.signed && -(pow2(63) as int) <= v < pow2(63) ==> tc(128, sint(64, tc(64, v))) == tc(128, v),
         to.ty.bits_ == 128 && !to.signed && 0 <= v < pow2(64) ==> tc(64, v) == tc(128, v),
+        // an unsigned conversion yields the value itself, which is its own bit pattern
+        0 <= v < pow2(32) ==> tc(32, v) == v,
+        0 <= v < pow2(64) ==> tc(64, v) == v && tc(128, v) == v,
+        // reductions stay inside the target width
+        forall|x: nat| #![trigger x % pow2(8)] x % pow2(8) < pow2(8),
+        forall|x: nat| #![trigger x % pow2(16)] x % pow2(16) < pow2(16),
 {
     lemma_pow2_values();
+    if 0 <= v < pow2(32) { lemma_tc_small(32, v); }
+    if 0 <= v < pow2(64) { lemma_tc_small(64, v); lemma_tc_small(128, v); }
     let tb = to.ty.bits_ as nat;
     if tb < 32 {
         // (v mod 2^32) mod 2^tb == v mod 2^tb  since 2^tb divides 2^32
